@@ -108,6 +108,32 @@ CLAIMED["C18"] = dict(
     design="DESIGN.md section 6, C18",
 )
 
+CLAIMED["C14"] = dict(
+    text="Lean 4 theorems: on documents whose elements have either child nodes or text, the tree produced by the blank-stripping "
+    "parser does not depend on the indentation (any scheme of blank strings, any depth; C14_strip_reindent); the table deciding "
+    "when _diff strips (no formatter, WS_TAGS / WS_BOTH strip; WS_NONE / WS_TEXT and the CLI's -w do not; C14_flag_table); without "
+    "stripping the re-indented tree differs (C14_nostrip_differs). PARTIAL: the composition with 'equal trees <=> empty script' and "
+    "the XML formatter's markup-free output are decided per run by the oracle over the 13-row formatter x flag table through "
+    "diff_texts and diff_files; libxml2's blank-node heuristic is modelled and compared with the parser on every run.",
+    note="Trusted: Lean kernel and standard axioms; the model of remove_blank_text for the property's document class is validated "
+    "against lxml on every run, not proved; file I/O observed.",
+    technique="Lean 4 proof (structural induction on the document; decision table by decide) + correspondence with the parser + table oracle",
+    design="DESIGN.md section 6, C14",
+)
+CLAIMED["C15"] = dict(
+    text="Lean 4 theorems over the model of diff_command's decision logic: every option reaches differ and formatter unchanged "
+    "(C15_plan_spec), --unique-attributes / --ignored-attributes strings are read back as exactly the listed entries incl. "
+    "{NS}tag@attr (C15_unique_roundtrip, C15_ignored_roundtrip), and with --check the exit status is 1 exactly when the edit "
+    "script is non-empty, otherwise nothing, for every formatter (C15_check_iff, with the 'diff' formatter's text empty iff the "
+    "script is empty). PARTIAL by nature: equality of the five input paths (file names, streams, bytes, str, trees) and of the "
+    "commands' stdout with the file API is I/O glue; it is observed on every run by unit U10 (diff_files wrapped from outside to "
+    "record what the command passes, compared with the Lean plan), not proved.",
+    note="Trusted: Lean kernel and standard axioms; argparse, file I/O and lxml parsing are observed, not modelled; fixed defect "
+    "c4b23ac (--check -f xml) is recorded in known_findings.json.",
+    technique="Lean 4 proof (decision logic stated outright) + recorded-call correspondence + exit-status and output oracles",
+    design="DESIGN.md section 6, C15",
+)
+
 NOT_YET = {}
 
 
